@@ -32,12 +32,16 @@ CoreOps == {
 \* quick: every shape up to 3 x 2 x 2 and 4 x 1 x 1, all grids, depth 2
 Q_Roots == RootsOf({<<2, 2, 2>>, <<3, 2, 1>>, <<4, 1, 1>>}, 4)
 \* quick, all schedules: depth 1
-QS_Roots == RootsOf({<<2, 2, 2>>, <<4, 2, 1>>, <<3, 1, 2>>}, 4)
+QS_Roots == RootsOf({<<2, 2, 2>>, <<4, 2, 1>>}, 4)
+\* pipelines with runs in the middle (persist -> operation -> compute ...)
+R_Ops == {O("tslice", <<1, None, None>>), O("ufunc", <<>>), O("time_shift", <<1, -6>>), O("to_stokes", <<>>),
+          O("coh_dd", <<3, -2>>), O("rechunk", <<1>>), O("splitcat", <<1, 1>>)}
+F2_Roots == RootsOf(ShapesUpTo(3, 2, 2) \cup {<<4, 1, 1>>, <<4, 2, 1>>, <<4, 3, 1>>, <<4, 1, 2>>}, 4)
 Q_Ops == CoreOps
 \* full: N <= 4, c <= 3, p <= 2
 F_Roots == RootsOf(ShapesUpTo(4, 3, 2), 12)
 F_Ops == CoreOps
-FS_Roots == RootsOf(ShapesUpTo(4, 3, 2), 6)
+FS_Roots == F2_Roots
 \* negative instances
 N_Roots == RootsOf({<<4, 2, 1>>, <<2, 2, 2>>}, 4)
 N_CohOps == {O("coh_dd", <<3, -2>>)}
@@ -48,8 +52,7 @@ N_NumpyNames == {"to_intensity"}
 S_Roots == {[cls |-> "BasebandSignal", sh |-> <<4, 2, 1>>, back |-> "dask", ch |-> <<<<4>>, <<1, 1>>, <<1>>>>],
             [cls |-> "BasebandSignal", sh |-> <<4, 3, 1>>, back |-> "dask", ch |-> <<<<2, 2>>, <<1, 2>>, <<1>>>>],
             [cls |-> "DualPolarizationSignal", sh |-> <<2, 2, 2>>, back |-> "dask", ch |-> <<<<2>>, <<1, 1>>, <<1, 1>>>>]}
-S_Ops == {O("time_shift", <<1, 5, -4>>), O("coh_dd", <<3, -2>>), O("to_stokes", <<>>), O("incoh_dd", <<0, 1>>),
-          O("ufunc", <<>>), O("rechunk", <<1>>)}
+S_Ops == {O("time_shift", <<1, 5, -4>>), O("coh_dd", <<3, -2>>), O("to_stokes", <<>>), O("incoh_dd", <<0, 1>>)}
 \* behaviour generation
 G_Ops == {
   O("tslice", <<1, None, None>>), O("tslice", <<None, None, 2>>), O("tslice", <<1, 3, None>>),
